@@ -562,6 +562,45 @@ func init() {
 	})
 	reg("tfxd", func(t *rapid.T, _ int) boxR { return boxR{N: []int64{gU64(t, "time"), gU64(t, "dur")}} },
 		func(r *boxR) (mp4.Box, error) { return mp4.NewTfxdBox(uint64(r.n(0)), uint64(r.n(1))), nil })
+	// uuidre: a uuid box whose UUID is changed after it was built (SetUUID): N[0] = start (0 tfxd, 1 tfrf, 2 empty
+	// UUIDBox), N[1] = new identity (0 private UUID with UnknownPayload B[0], 1 tfxd, 2 tfrf); the typed data of the
+	// start stays where the constructor put it. What is written, and how long it is, follows the UUID.
+	reg("uuidre", func(t *rapid.T, _ int) boxR {
+		return boxR{N: []int64{int64(rapid.IntRange(0, 2).Draw(t, "start")), int64(rapid.IntRange(0, 2).Draw(t, "to")), gU64(t, "time"), gU64(t, "dur")},
+			B: []harness.HexBytes{gData(t, "payload", 24)}}
+	}, func(r *boxR) (mp4.Box, error) {
+		var b *mp4.UUIDBox
+		switch r.n(0) {
+		case 0:
+			b = mp4.NewTfxdBox(uint64(r.n(2)), uint64(r.n(3)))
+		case 1:
+			b = mp4.NewTfrfBox(1, []uint64{uint64(r.n(2))}, []uint64{uint64(r.n(3))})
+		default:
+			b = &mp4.UUIDBox{}
+		}
+		switch r.n(1) {
+		case 0:
+			if err := b.SetUUID("00112233-4455-6677-8899-aabbccddeeff"); err != nil {
+				return nil, err
+			}
+			b.UnknownPayload = r.b(0)
+		case 1:
+			if err := b.SetUUID(mp4.UUIDTfxd); err != nil {
+				return nil, err
+			}
+			if b.Tfxd == nil {
+				b.Tfxd = &mp4.TfxdData{Version: 1, FragmentAbsoluteTime: uint64(r.n(2)), FragmentAbsoluteDuration: uint64(r.n(3))}
+			}
+		default:
+			if err := b.SetUUID(mp4.UUIDTfrf); err != nil {
+				return nil, err
+			}
+			if b.Tfrf == nil {
+				b.Tfrf = &mp4.TfrfData{Version: 1, FragmentCount: 1, FragmentAbsoluteTimes: []uint64{uint64(r.n(2))}, FragmentAbsoluteDurations: []uint64{uint64(r.n(3))}}
+			}
+		}
+		return b, nil
+	})
 	reg("tfra", func(t *rapid.T, _ int) boxR {
 		r := boxR{N: []int64{gBit(t, "version"), gU32(t, "track"), int64(rapid.IntRange(0, 3).Draw(t, "lTraf")), int64(rapid.IntRange(0, 3).Draw(t, "lTrun")), int64(rapid.IntRange(0, 3).Draw(t, "lSample"))}}
 		n := tableN(t, "n", 3)
@@ -1108,7 +1147,7 @@ func init() {
 		if rapid.Bool().Draw(t, "tfdt") {
 			r.K = append(r.K, genBox(t, "tfdt", d+1))
 		}
-		r.K = append(r.K, genSome(t, "trafKid", d+1, 4, "trun", "trun", "sbgp", "sgpd", "subs", "saiz", "saio", "senc", "tfrf", "tfxd")...)
+		r.K = append(r.K, genSome(t, "trafKid", d+1, 4, "trun", "trun", "sbgp", "sgpd", "subs", "saiz", "saio", "senc", "tfrf", "tfxd", "uuidre")...)
 		return r
 	}, func(r *boxR) (mp4.Box, error) {
 		b := &mp4.TrafBox{}
